@@ -106,6 +106,19 @@ impl Queue {
     }
 }
 
+/// Resident set size of this process in GB (0 if it cannot be read).
+fn rss_gb() -> f64 {
+    std::fs::read_to_string("/proc/self/statm")
+        .ok()
+        .and_then(|s| s.split_whitespace().nth(1).and_then(|p| p.parse::<f64>().ok()))
+        .map(|pages| pages * 4096.0 / 1e9)
+        .unwrap_or(0.0)
+}
+
+fn max_rss_gb() -> f64 {
+    std::env::var("VERIF_MAX_RSS_GB").ok().and_then(|s| s.parse().ok()).unwrap_or(20.0)
+}
+
 fn sel_devs(points: &[ChoicePoint], upto: usize) -> usize {
     points[..upto].iter().filter(|p| p.kind == Kind::Select && p.chosen > 0).count()
 }
@@ -228,6 +241,9 @@ pub fn explore(unit: &str, bounds: &Bounds, run: RunFn, known: &(dyn Fn(&str) ->
                         Some(format!("execution cap {} reached", bounds.max_execs))
                     } else if start.elapsed() > bounds.max_wall {
                         Some(format!("wall-clock cap {}s reached", bounds.max_wall.as_secs()))
+                    } else if n % 2048 == 0 && rss_gb() > max_rss_gb() {
+                        // the frontier of unexplored prefixes lives in memory
+                        Some(format!("memory cap {} GB reached", max_rss_gb()))
                     } else {
                         None
                     };
